@@ -53,7 +53,10 @@ class P(Process):
         n = self.name
         sch = {'s': {'x_' + n: {'_default': 0},
                      'h_' + n: {'_default': 1}},
-               'r': {'q_' + n: {'_default': 5}}}
+               'r': {'q_' + n: {'_default': 5}},
+               # a falsy non-numeric value that must still be emitted
+               'b': {'off_' + n: {'_default': False, '_updater': 'set',
+                                  '_emit': True}}}
         if self.parameters['via'] == 'branch':
             # leaves carry their own flags; the branch-level flag given through
             # store_schema must override all of them
@@ -198,7 +201,7 @@ def run_engine(ctx, cfg, flags, es, ivs):
     Engine.__init__(
         e, processes=procs, steps={'last': Last({'emit_w': flags[('s', 'w')]})},
         flow={'last': []},
-        topology={**{n: {'s': ('s',), 'r': ('r',)} for n in names},
+        topology={**{n: {'s': ('s',), 'r': ('r',), 'b': ('b',)} for n in names},
                   'last': {'s': ('s',)}, **extra_topology},
         emitter=emitter, emit_step=es, display_info=False, **kwargs)
     for j, iv in enumerate(ivs):
@@ -293,9 +296,8 @@ def body(ctx, cfg):
                 flags[p] = ctx.flag('em')
             else:                      # keep the flag space small
                 flags[p] = p != ('s', 'x_p1')
-    if cfg['via'] == 'store_schema':
-        # the step's own schema flag for w is what counts for w
-        pass
+    for n in ('p0', 'p1'):
+        flags[('b', 'off_' + n)] = True
     if not all(flags.values()):
         ctx.goal('flag off')
     es = cfg['es']
